@@ -378,7 +378,9 @@ CHECKS = {
     'C20': ('exploration',
             'exhaustive schedule enumeration + Hypothesis-generated '
             'schedules with cancellation/exception faults, enter/exit-log '
-            'invariant oracle',
+            'invariant oracle; plus generated real-thread stress programs '
+            'for the threading twins (overlap detector, 1 us switch '
+            'interval)',
             'Every permit interleaving of 3 tasks x 1 acquisition (with one '
             'optional cancel at every position) and 2 tasks x 2 acquisitions '
             'is enumerated for the asyncio read-write lock and the FileLock; '
@@ -387,10 +389,11 @@ CHECKS = {
             'oracle is an invariant over the recorded enter/exit log plus '
             'no-deadlock / still-usable / lock-file-released end checks. '
             'Exhaustive for the small space, sampled beyond.',
-            'Trusts the harness gates and the CPython asyncio loop; only the '
-            'asyncio subsystem (the threading twins need OS-thread schedules '
-            'that this technique does not own); FileLock expiry by wall '
-            'clock not exercised.',
+            'Trusts the harness gates and the CPython asyncio loop. The '
+            'threading twins run under OS threads whose schedule the harness '
+            'does not own: there only an observed overlap counts, deadlock '
+            'is not judged (60 s without finishing = inconclusive). FileLock '
+            'expiry by wall clock not exercised.',
             'DESIGN.md section 3, C20'),
 }
 
